@@ -212,7 +212,7 @@ theorem markSites_as_modelled : Gen.GC.markSites = [
   ("janet_mark_tuple", "janet_mark_many", "tuple,janet_tuple_length(tuple)"),
   ("janet_mark_funcenv", "janet_gc_mark", "env"),
   ("janet_mark_funcenv", "janet_env_maybe_detach", "env"),
-  ("janet_mark_funcenv", "janet_mark_fiber", "env->as.fiber"),
+  ("janet_mark_funcenv", "janet_mark", "janet_wrap_fiber(env->as.fiber)"),
   ("janet_mark_funcenv", "janet_mark_many", "env->as.values,env->length"),
   ("janet_mark_funcdef", "janet_gc_mark", "def"),
   ("janet_mark_funcdef", "janet_mark_many", "def->constants,def->constants_length"),
@@ -259,6 +259,21 @@ theorem markSites_as_modelled : Gen.GC.markSites = [
   ("ev_callback_read", "janet_mark", "janet_wrap_buffer(state->buf)"),
   ("ev_callback_write", "janet_mark", "state->is_buffer?janet_wrap_buffer(state->src.buf):janet_wrap_string(state->src.str)"),
   ("ev_callback_write", "janet_mark", "janet_wrap_abstract(state->dest_abst)")] := rfl
+
+/-- rank of a per-type mark function: a typed (not depth-checked) call must go strictly down -/
+def markRank (f : String) : Nat :=
+  if f = "janet_mark_fiber" then 4 else if f = "janet_mark_function" then 3 else if f = "janet_mark_funcenv" then 2
+  else if f = "janet_mark_funcdef" then 1 else 0
+
+/-- **Bounded C recursion of the mark phase.**  Every cycle of calls between `janet_mark_*` functions passes through
+`janet_mark` (where the depth counter is checked and the value is spilled when it reaches 0): the typed calls, regenerated
+from gc.c, strictly decrease `markRank` — except `janet_mark_funcdef → janet_mark_funcdef`, whose depth is the nesting
+depth of function definitions, bounded when the funcdef is built (compiler / unmarshal recursion guards).
+On the pinned tree this failed: `janet_mark_funcenv → janet_mark_fiber → janet_mark_function → janet_mark_funcenv`
+(witness: corpus/C01/regress/mark_recursion_chain.janet segfaults in the collector). -/
+theorem mark_typed_calls_acyclic :
+    ∀ c ∈ Gen.GC.directCalls, c = ("janet_mark_funcdef", "janet_mark_funcdef") ∨ markRank c.2 < markRank c.1 := by
+  decide
 
 /-- the weak-heap threshold of janet_gcalloc is the first weak memory type, and the depth limit is positive -/
 theorem gen_facts : Gen.GC.weakThreshold = Gen.GC.memTableWeakK ∧ 1 ≤ Gen.GC.recursionGuard ∧
